@@ -90,6 +90,37 @@ pub fn resolve_object() {
     sym::reach(1);
 }
 
+/// Two live leaves with the same content digest: one replica reaches the final content (or the deletion) through an
+/// intermediate edit, the other directly. The object is in conflict, exactly one losing revision is listed, every
+/// leaf can be chosen, and the resolution propagates.
+pub fn same_digest_leaves() {
+    let (mut a, mut b) = base_pair(doc(true, "x", "y"));
+    let deletions = sym::any_bool();
+    a.m.update(doc(true, "m", "y")).expect("update");
+    a.m.commit(None).expect("commit").expect("block");
+    let last = if deletions { doc(false, "", "y") } else { doc(true, "z", "y") };
+    a.m.update(last.clone()).expect("update");
+    a.m.commit(None).expect("commit").expect("block");
+    b.m.update(last).expect("update");
+    b.m.commit(None).expect("commit").expect("block");
+    a.pull(&b);
+    let _ = state(&a.m);
+    assert!(a.m.in_conflict().contains("a"), "two different live leaves but no conflict reported");
+    let winner = a.m.get_winner("a").expect("winner");
+    let losers: Vec<String> = a.m.get_conflicting("a").expect("conflicting").into_iter().collect();
+    assert!(losers.len() == 1 && losers[0] != winner, "the losing live leaf is not listed as conflicting");
+    let chosen = if sym::any_bool() { winner.clone() } else { losers[0].clone() };
+    let before = a.m.read(None).expect("read");
+    a.m.resolve_as("a", &chosen).expect("resolve_as");
+    assert!(!a.m.in_conflict().contains("a"), "object still in conflict after resolve_as");
+    assert!(a.m.get_conflicting("a").unwrap().is_empty(), "conflicting revisions remain after resolve_as");
+    assert!(a.m.read(None).unwrap() == before, "resolving between leaves with the same content changed the document");
+    a.m.commit(None).expect("commit").expect("resolution produced no block");
+    b.pull(&a);
+    assert!(state(&b.m) == state(&a.m), "resolution did not propagate: replicas differ");
+    sym::reach(1);
+}
+
 /// both replicas see the conflict and resolve it independently (same or different choice), then exchange
 pub fn resolve_both() {
     let (mut a, mut b) = base_pair(doc(true, "x", "y"));
